@@ -50,7 +50,8 @@ Definition eq_obs (a b : obs) : bool :=
 DATES = [1_000_000_000, 1_100_000_000, 1_200_000_000]
 # every date a script or an initial file may carry (incl. the one-second neighbours of DATES[0])
 KNOWN_DATES = set(DATES) | {DATES[0] + 1, DATES[0] - 1}
-HASHVAL = {"SHA512": "5" * 8, "SHA256": "2" * 8, "SHA1": "1" * 8, "MD5Sum": "m" * 8}
+# hex digests are spelled in either case by real archives; the by-hash name is the spelling of the Release
+HASHVAL = {"SHA512": "5aB5Ab5a", "SHA256": "2Cd2cD2c", "SHA1": "1eF1Ef1e", "MD5Sum": "mMmMmmMM"}
 COMPS = [("xz", ".xz"), ("gz", ".gz"), ("bz2", ".bz2"), (None, "")]
 
 
